@@ -23,7 +23,7 @@ Variable F : key -> N -> list value -> list N -> N -> N.
 Variable rank : key -> nat.
 Variable ord : key -> list rkind.
 Hypothesis Hrank : wf_rank rules rank.
-Hypothesis Hdisc : forall k, r_disc (rules k) = [].
+Hypothesis Hwfd : wf_disc rules.
 Hypothesis Hord : forall k, In RReq (ord k).
 Notation cvK := (cvK rules env F rank).
 Notation bkK := (bkK rules env F rank).
@@ -60,7 +60,7 @@ Proof.
             (kd' = KNeedsToRun \/ (kd' = KDoesNotNeedToRun /\ bAt su k <> 0 /\ valid rules env k (res_of su k) = true /\ drop_single (deps su k) = [] /\ pending_for su k) \/
              (kd' = KScanning /\ bAt su k <> 0 /\ valid rules env k (res_of su k) = true /\ (if b then None else Some k) = Some k)) ->
             BInv root (if b then None else Some k) su1).
-  { intros kd' -> Hsc Hns Hts Hcase. apply (BInv_rekind rules env F rank Hrank Hdisc root _ su su1 k kd'); auto; unfold su, su1, unpop; autorewrite with iv; try congruence.
+  { intros kd' -> Hsc Hns Hts Hcase. apply (BInv_rekind rules env F rank Hrank Hwfd root _ su su1 k kd'); auto; unfold su, su1, unpop; autorewrite with iv; try congruence.
     unfold task_of. autorewrite with iv. destruct (aget (is_tasks s) k) eqn:Eg; auto. exfalso.
     assert (Hex : aget (is_tasks s) k <> None) by congruence. apply (t_tk c s (proj1 (proj2 HI))) in Hex.
     destruct (unscanned_not_curk s k Hsc Hns) as (_ & [I1 I2] & _). unfold is_in_progress in Hex. destruct (kind_of s k); try discriminate; contradiction. }
@@ -123,9 +123,21 @@ Proof.
   - apply (BC_kinds rules F su su1 HC); auto.
     + intros k'. rewrite (proj2 (proj2 (HL k'))). apply (b_nc _ _ _ HC).
     + intros k'. unfold idle. rewrite HK. destruct (N.eqb k' k) eqn:E; auto. apply N.eqb_eq in E. subst k'. rewrite Hk. intros _. split; discriminate.
+    + intros k' H. left. now rewrite Hip.
+    + intros y (rq & Hu' & H1' & H2'). left. exists rq. split; [now apply HU|auto].
     + intros k'. rewrite Hba. destruct (N.eqb k' k) eqn:E.
-      * apply N.eqb_eq in E. subst k'. right. split; auto. split; [now rewrite HK, N.eqb_refl|]. split; [unfold idle; rewrite Hk; split; discriminate|].
-        split; auto. split; [apply Hdp|]. split; [intros v' Hv'; rewrite Hv in Hv'; inversion Hv'; now subst|]. intros d Hd. now apply Hc1, Hdc.
+      * apply N.eqb_eq in E. subst k'. right. split; auto. split; [exact Hck|]. assert (Hidk : idle su k) by (unfold idle; rewrite Hk; split; discriminate).
+        split; [exact Hidk|]. split; auto.
+        assert (Hncu : ~ curk su k) by (intros [H _]; congruence).
+        destruct (b_rows _ _ _ HC k Hidk Hb0 Hncu) as (v0 & _ & _ & Hm & _).
+        destruct Hco as [_ Hrec]. cbn zeta in Hrec. unfold ImplInc1.cstruct. cbn zeta.
+        assert (Hreq : map (stored su1) (r_req (rules k)) = map (stored su) (r_req (rules k))) by (apply map_ext; intros; apply Hst).
+        rewrite Hreq, Hdp. split; [|split].
+        -- intros y Hy. assert (Hin : In (mkDep y false false) (deps su k)).
+           { apply Hrec. apply in_app_or in Hy. destruct Hy as [Hy|Hy]; apply in_or_app; [now left|right; apply in_or_app; now left]. }
+           split; auto. apply Hc1. apply (Hdc _ Hin).
+        -- intros y Hy. apply Hrec. apply in_or_app. right. apply in_or_app. now right.
+        -- intros d Hd. split; [now apply Hm|left; now apply Hc1, Hdc].
       * left. split; auto. intros H. destruct (Hc2 k' H) as [->|H']; auto. rewrite N.eqb_refl in E. discriminate.
   - apply (BS_kinds rules env F rank None None su su1 HS); auto.
     + intros k' Hks. rewrite Hba. destruct (N.eqb k' k) eqn:E; auto. apply N.eqb_eq in E. subst k'. congruence.
@@ -261,7 +273,7 @@ Proof.
            left. rewrite C7. apply in_or_app. right. apply Hwit; auto.
         -- rewrite Hdk. intros d [].
         -- rewrite Hdk. intros d [].
-        -- reflexivity.
+        -- rewrite Hft. cbn [tn ti_with_wait ti_with_slots ti_disc ti_pending new_tinfo]. split; [intros H; contradiction|]. split; [reflexivity|intros H; now contradiction H].
         -- rewrite Hft. intros H. contradiction.
       * rewrite (C5 t0 E) in Hy. destruct (T6 t0 y Hy) as [J1 J2 J3 J4 J5 J6 J7 J8 J9 J10 J11]. constructor.
         -- exact J1.
@@ -273,7 +285,7 @@ Proof.
         -- intros i z Hu0 Hi Hz. rewrite (Hdp t0 E). destruct (J7 i z Hu0 Hi Hz) as [(w & Hw1 & Hw2)|Hr]; [left; exists w; split; auto|now right].
         -- rewrite (Hdp t0 E). intros d Hd. destruct (J8 d Hd) as [H|(w & Hw1 & Hw2)]; [left; now apply Hcu|right; exists w; split; auto].
         -- rewrite (Hdp t0 E). exact J9.
-        -- exact J10.
+        -- rewrite Hft. exact J10.
         -- rewrite Hft, (proj1 (HRo t0 E)). exact J11.
     + destruct T7 as [H|[(k0 & H)|[H|H]]].
       * left. rewrite C7. apply in_or_app. now left.
@@ -287,6 +299,7 @@ Proof.
       split; [unfold is_in_progress; now rewrite HK, N.eqb_refl|]. unfold bAt. rewrite HRk. split; [reflexivity|].
       intros Hb. apply (b_sig _ _ _ HC). exact Hb.
     + intros k' E. apply N.eqb_eq in E. subst k'. left. unfold cAt. rewrite Hst, HRk. auto.
+    + intros y (rq & Hu' & H1' & H2'). left. exists rq. split; [now apply HU1|auto].
   - apply (BS_change rules env F rank (fun k' => N.eqb k' k) None su su1); auto.
     + intros k' E. apply N.eqb_neq in E. now apply HRo.
     + intros k' E. apply N.eqb_eq in E. subst k'. split; [unfold unsettled; rewrite Hk; repeat split; discriminate|unfold is_in_progress; now rewrite HK, N.eqb_refl].
@@ -371,6 +384,8 @@ Proof.
     + intros k. rewrite (proj2 (proj2 (HR k))). apply (b_nc _ _ _ HC).
     + intros k. unfold idle. now rewrite HK.
     + intros k H. now apply Hcu.
+    + intros k H. left. now rewrite (in_progress_of_kind su s' k (HK k)).
+    + intros y (rq & Hu' & H1' & H2'). left. exists rq. split; [now apply HU|auto].
     + intros k. left. split; auto. intros H. now apply Hcu.
   - apply (BS_kinds rules env F rank x None su s' HS); auto.
     + intros k H. now apply Hcu.
@@ -485,6 +500,7 @@ Proof.
         destruct HA as [(Hc & _)|_]; [left; now apply Hcu|right; exists rq; auto].
       * intros d Hd. destruct (N.eq_dec t0 t) as [->|E]; [|rewrite (Hdp t0 E) in Hd; auto].
         rewrite Hdt in Hd. apply in_app_or in Hd. destruct Hd as [Hd|[Hd|[]]]; auto. subst d. cbn [dn d_key d_single]. auto.
+      * rewrite Hft. exact K10.
       * rewrite Hft, Hsgs. exact K11.
     + destruct T7 as [H|[(k & H)|[H|H]]].
       * rewrite Hq in H. destruct H as [H|H]; [rewrite H in Et; discriminate|left; now rewrite Hq'].
@@ -496,6 +512,7 @@ Proof.
     + intros k E. apply N.eqb_neq in E. now apply HRo.
     + intros k E. apply N.eqb_eq in E. subst k. split; [now apply in_progress_unsettled|]. split; [now rewrite (in_progress_of_kind su s' t (HK t))|].
       split; [apply Hba|]. rewrite Hba, Hsgs; apply (b_sig _ _ _ HC).
+    + intros y (r & Hu' & H1' & H2'). left. exists r. split; auto. destruct (HU1 r Hu') as [->|H]; [congruence|exact H].
   - apply (BS_change rules env F rank (fun k => N.eqb k t) None su s'); auto.
     + intros k E. apply N.eqb_neq in E. now apply HRo.
     + intros k E. apply N.eqb_eq in E. subst k. split; [now apply in_progress_unsettled|now rewrite (in_progress_of_kind su s' t (HK t))].
@@ -543,6 +560,11 @@ Proof.
     + intros k. rewrite RI. apply (b_nc _ _ _ HC).
     + intros k. unfold idle. now rewrite HK.
     + intros k H. now apply Hcu.
+    + intros k H. left. now rewrite (in_progress_of_kind su s' k (HK k)).
+    + intros y (r & [Hu'|(k0 & Hu')] & H1' & H2').
+      * rewrite Hq in Hu'. destruct Hu' as [Hu'|Hu']; [|left; exists r; split; [left; now rewrite Hq'|auto]].
+        subst r. rewrite H2' in Hinp. destruct Hinp as [Hp|Hp]; [right; left; now rewrite (in_progress_of_kind su s' y (HK y))|right; right; now apply Hcu].
+      * left. exists r. split; [right; exists k0; now rewrite RI|auto].
     + intros k. left. split; auto. intros H. now apply Hcu.
   - apply (BS_kinds rules env F rank None None su s' HS); auto.
     + intros k H. now apply Hcu.
